@@ -159,7 +159,9 @@ func runProgram(g int, prog []c20Step, repeat int) []string {
 				}
 				st.ser.CompressMode(simdjson.CompressMode(step.Mode % 4))
 				st.blob = st.ser.Serialize(st.blob[:0], *st.pj)
-				st.note("serialize", []byte("done"), nil)
+				// the bytes themselves are the result of Serialize: they depend on the document, the mode and this
+				// Serializer's own history, never on what other callers' Serializers did
+				st.note("serialize", st.blob, nil)
 			case "deserialize":
 				if st.blob == nil {
 					continue
@@ -370,4 +372,81 @@ func walkCvt(pj *simdjson.ParsedJson) ([]byte, error) {
 			out = append(append(out, s...), 0)
 		}
 	}
+}
+
+
+// ---------------------------------------------------------------------------------------------
+// Pool isolation without concurrency: the package-level pools of compressors behind Serialize are shared by every
+// Serializer in the process. What one caller's Serializer did (in another mode) must not change the bytes another
+// caller's fresh Serializer produces: the pools are emptied (two GC cycles clear a sync.Pool), a reference is taken,
+// the pools are then filled by Serializers of other modes, and the same call must give the same bytes again.
+
+type c20PoolCase struct {
+	Doc    []byte `json:"doc"`
+	Mode   int    `json:"mode"`   // mode under test
+	Others []int  `json:"others"` // modes other callers use in between
+	Rounds int    `json:"rounds"`
+}
+
+func c20PoolCheck(c c20PoolCase) error {
+	pj, err := simdjson.Parse(append([]byte(nil), c.Doc...), nil)
+	if err != nil {
+		return bugf("document rejected: %v", err)
+	}
+	other, err := simdjson.Parse([]byte(`{"other":["caller",1,2.5,"`+strings.Repeat("abcdefgh", 600)+`"],"x":[`+strings.Repeat("12345,", 3000)+`0]}`), nil)
+	if err != nil {
+		return bugf("%v", err)
+	}
+	serialize := func(mode int, p *simdjson.ParsedJson) []byte {
+		s := simdjson.NewSerializer()
+		s.CompressMode(simdjson.CompressMode(mode % 4))
+		return s.Serialize(nil, *p)
+	}
+	runtime.GC()
+	runtime.GC()
+	ref := serialize(c.Mode, pj)
+	ref2 := serialize(c.Mode, pj)
+	if !bytes.Equal(ref, ref2) {
+		col("C20").Skip("pool isolation: Serialize is not byte-deterministic for this document and mode even alone")
+		return nil
+	}
+	for r := 0; r < c.Rounds; r++ {
+		for _, m := range c.Others {
+			_ = serialize(m, other)
+			_ = serialize(m, pj)
+		}
+		got := serialize(c.Mode, pj)
+		if !bytes.Equal(got, ref) {
+			return fmt.Errorf("a fresh Serializer in mode %d produced %d bytes for this document alone, but %d different bytes after other Serializers had run in modes %v (round %d): package-level state leaked between callers", c.Mode%4, len(ref), len(got), c.Others, r)
+		}
+		back, err := simdjson.NewSerializer().Deserialize(got, nil)
+		if err != nil {
+			return fmt.Errorf("Deserialize of the serialized bytes: %v", err)
+		}
+		a, _ := walkW1(pj)
+		b, err := walkW1(back)
+		if err != nil || !bytes.Equal(a, b) {
+			return fmt.Errorf("round trip after other Serializers had run in modes %v differs: %v", c.Others, err)
+		}
+	}
+	return nil
+}
+
+var c20PoolRun = register("C20", "pool-isolation", c20PoolCheck)
+
+func TestC20_PoolIsolation(t *testing.T) {
+	runRapid(t, "C20_PoolIsolation", nCases(160, 4000), func(t *rapid.T) {
+		var doc []byte
+		if rapid.Bool().Draw(t, "big") {
+			doc = docFor(rapid.IntRange(0, 7).Draw(t, "g"), rapid.IntRange(0, 3).Draw(t, "size"), rapid.IntRange(0, 99).Draw(t, "salt"))
+		} else {
+			doc = renderCompact(genDoc(t, pickProfile(t)))
+		}
+		c := c20PoolCase{Doc: doc, Mode: rapid.IntRange(0, 3).Draw(t, "mode"), Rounds: rapid.IntRange(1, 3).Draw(t, "rounds"),
+			Others: rapid.SliceOfN(rapid.IntRange(0, 3), 1, 4).Draw(t, "others")}
+		c20PoolRun(t, c)
+		b, _ := json.Marshal(c)
+		col("C20").Eval(true, evidHash(b), "kind:pool-isolation", fmt.Sprintf("mode:%d", c.Mode))
+	})
+	col("C20").Completed("TestC20_PoolIsolation")
 }
